@@ -564,14 +564,17 @@ class SoupStrainer(ElementFilter):
             return False
 
         this_attr_match = _match_attribute_value_helper(attr_values)
-        if not this_attr_match and len(attr_values) > 1:
+        if not this_attr_match and len(attr_values) != 1:
             # This cast converts Optional[str] to plain str.
             #
             # We know if there's more than one value, there can't be
             # any None in the list, because Beautiful Soup never uses
             # None as a value of a multi-valued attribute, and if None
             # is passed in as attr_value, it's turned into a list with
-            # a single element (thus len(attr_values) > 1 fails).
+            # a single element (thus len(attr_values) != 1 fails).
+            #
+            # A multi-valued attribute with no values at all
+            # (class="") is present and has the string value "".
             attr_values = cast(Sequence[str], attr_values)
 
             # Try again but treat the attribute value
